@@ -317,6 +317,7 @@ func (c *Ctx) ruleDefrag() {
 		fa := c.eng.analyze(fn, nil)
 		var problems []string
 		n := 0
+		nReq := 0
 		for _, ret := range c.returnsOf(fn) {
 			for _, s := range fa.statesBefore(ret) {
 				n++
@@ -324,13 +325,37 @@ func (c *Ctx) ruleDefrag() {
 				if !c.provesFact(fa, s, Fact{aTR, tt.mk(Term{K: "B", S: "<=", A: c.intConst(1), B: t}), true}, nil) {
 					problems = append(problems, "the scan limit returned may be zero or negative: "+t.key)
 				}
+				// a positive request is honoured as given (no ceiling): the caller's limit is the
+				// number of consecutive nil slots the scan may cross
+				p0 := tt.mk(Term{K: "P", N: 0, S: fn.Params[0].Name()})
+				req := tt.mk(Term{K: "L", A: tt.mk(Term{K: "IA", A: p0, B: c.intConst(0)}), N: 0})
+				given := c.provesFact(fa, s, Fact{aTR, tt.mk(Term{K: "B", S: "<", A: c.intConst(0), B: tt.mk(Term{K: "LEN", A: p0})}), true}, nil)
+				if given {
+					nReq++
+					// find the actual load term of max[0] in this function (epoch-stamped)
+					for _, b := range fn.Blocks {
+						for _, in := range b.Instrs {
+							if u, ok := in.(*ssa.UnOp); ok {
+								if ia, ok := u.X.(*ssa.IndexAddr); ok && ia.X == ssa.Value(fn.Params[0]) && isConstInt(ia.Index, 0) {
+									req = fa.term(s, u)
+								}
+							}
+						}
+					}
+					if c.provesFact(fa, s, Fact{aTR, tt.mk(Term{K: "B", S: "<", A: c.intConst(0), B: req}), true}, nil) && t != req {
+						problems = append(problems, "a positive limit requested by the caller is not the limit returned ("+t.key+")")
+					}
+				}
 			}
 		}
 		if n == 0 {
 			problems = append(problems, "no return path")
 		}
+		if nReq == 0 {
+			problems = append(problems, "no return path on which a limit was requested")
+		}
 		if len(problems) == 0 {
-			rep.ok("R-DEFRAG", relName(fn), "scan limit positive", c.p.pos(fn.Pos()), "every return path yields a limit >= 1")
+			rep.ok("R-DEFRAG", relName(fn), "scan limit positive", c.p.pos(fn.Pos()), "every return path yields a limit >= 1, and a positive request is returned as given")
 		} else {
 			sort.Strings(problems)
 			rep.bad("R-DEFRAG", relName(fn), "scan limit positive", c.p.pos(fn.Pos()), strings.Join(uniq(problems), "; "))
